@@ -97,6 +97,8 @@ pub struct Law {
     pub points: Vec<f64>,
     /// parameters are cast to integers by the API (so the model stores the cast value)
     pub int_params: &'static [bool],
+    /// the law's `Default` object and the parameters it stands for
+    pub default: fn() -> (Box<dyn DObj>, Vec<f64>),
 }
 
 pub fn laws() -> Vec<Law> {
@@ -121,6 +123,14 @@ pub fn laws() -> Vec<Law> {
                 for (i, a) in add.into_iter().enumerate() {
                     l.lattice[i].extend(a);
                 }
+            }
+        }
+    }
+    // NaN is in no parameter domain: every real-valued parameter is offered one
+    for l in v.iter_mut() {
+        for (i, lat) in l.lattice.iter_mut().enumerate() {
+            if !l.int_params[i] && !lat.iter().any(|x| x.is_nan()) {
+                lat.push(NAN);
             }
         }
     }
@@ -156,19 +166,19 @@ fn laws_base() -> Vec<Law> {
     let cont_pts: Vec<f64> = vec![-1e3, -7.5, -2.0, -1.0, -0.5, -1e-9, 0.0, 1e-9, 0.1, 0.25, 0.5, 0.75, 0.9, 1.0, 1.5, 2.0, 2.5, 3.0, 4.5, 5.0, 5.5, 6.0, 10.0, 64.3, 1e3];
     let disc_pts: Vec<f64> = vec![-6.0, -5.0, -3.0, -1.0, 0.0, 1.0, 2.0, 3.0, 4.0, 5.0, 6.0, 7.0, 8.0, 10.0, 14.0, 15.0, 16.0, 20.0, 35.0, 42.0, 69.0, 70.0, 71.0, 100.0, 1000.0];
     vec![
-        Law { name: "Normal", setters: &["set_mu", "set_sigma"], lattice: vec![vec![-1e3, -1.0, 0.0, 2.5], vec![0.0, 0.5, 1.0, 20.0, -1.0, NAN]], make: |p| Box::new(Normal::new(p[0], p[1])), points: cont_pts.clone(), int_params: &[false, false] },
-        Law { name: "Gamma", setters: &["set_alpha", "set_beta"], lattice: vec![vec![0.5, 1.0, 3.0, 20.0, 0.0, -1.0], vec![0.5, 1.0, 4.0, 0.0, -2.0]], make: |p| Box::new(Gamma::new(p[0], p[1])), points: cont_pts.clone(), int_params: &[false, false] },
-        Law { name: "Beta", setters: &["set_alpha", "set_beta"], lattice: vec![vec![0.5, 1.0, 2.0, 4.0, 0.0, -1.0], vec![0.5, 1.0, 4.0, 7.5, 0.0, -1.0]], make: |p| Box::new(Beta::new(p[0], p[1])), points: cont_pts.clone(), int_params: &[false, false] },
-        Law { name: "ChiSquared", setters: &["set_dof"], lattice: vec![vec![1.0, 2.0, 5.0, 50.0, 0.0, 2.7, -1.0]], make: |p| Box::new(ChiSquared::new(p[0] as usize)), points: cont_pts.clone(), int_params: &[true] },
-        Law { name: "T", setters: &["set_dof"], lattice: vec![vec![0.5, 1.0, 2.0, 5.0, 30.0, 0.0, -1.0, NAN]], make: |p| Box::new(T::new(p[0])), points: cont_pts.clone(), int_params: &[false] },
-        Law { name: "Pareto", setters: &["set_alpha", "set_minval"], lattice: vec![vec![0.5, 1.0, 2.0, 4.0, 0.0, -1.0], vec![0.5, 1.0, 4.0, 0.0, -1.0]], make: |p| Box::new(Pareto::new(p[0], p[1])), points: cont_pts.clone(), int_params: &[false, false] },
-        Law { name: "Gumbel", setters: &["set_mu", "set_beta"], lattice: vec![vec![-1e3, 0.0, 1.0], vec![0.5, 1.0, 10.0, 0.0, -1.0]], make: |p| Box::new(Gumbel::new(p[0], p[1])), points: cont_pts.clone(), int_params: &[false, false] },
-        Law { name: "Exponential", setters: &["set_lambda"], lattice: vec![vec![1e-3, 1.0, 5.0, 1e3, 0.0, -1.0]], make: |p| Box::new(Exponential::new(p[0])), points: cont_pts.clone(), int_params: &[false] },
-        Law { name: "Uniform", setters: &["set_lower", "set_upper"], lattice: vec![vec![-5.0, 0.0, 1.0, 2.0, 5.0, 6.0], vec![-5.0, 0.0, 1.0, 2.0, 5.0, 6.0]], make: |p| Box::new(Uniform::new(p[0], p[1])), points: cont_pts.clone(), int_params: &[false, false] },
-        Law { name: "Poisson", setters: &["set_lambda"], lattice: vec![vec![0.5, 3.0, 10.0, 42.0, 0.0, -1.0]], make: |p| Box::new(Poisson::new(p[0])), points: disc_pts.clone(), int_params: &[false] },
-        Law { name: "Binomial", setters: &["set_n", "set_p"], lattice: vec![vec![0.0, 1.0, 15.0, 70.0], vec![0.0, 0.3, 0.5, 0.7, 1.0, -0.1, 1.5, NAN]], make: |p| Box::new(Binomial::new(p[0] as u64, p[1])), points: disc_pts.clone(), int_params: &[true, false] },
-        Law { name: "Bernoulli", setters: &["set_p"], lattice: vec![vec![0.0, 0.25, 0.5, 1.0, -0.1, 1.5, NAN]], make: |p| Box::new(Bernoulli::new(p[0])), points: disc_pts.clone(), int_params: &[false] },
-        Law { name: "DiscreteUniform", setters: &["set_lower", "set_upper"], lattice: vec![vec![-5.0, 0.0, 1.0, 2.0, 5.0, 6.0], vec![-5.0, 0.0, 1.0, 2.0, 5.0, 6.0]], make: |p| Box::new(DiscreteUniform::new(p[0] as i64, p[1] as i64)), points: disc_pts.clone(), int_params: &[true, true] },
+        Law { name: "Normal", setters: &["set_mu", "set_sigma"], lattice: vec![vec![-1e3, -1.0, 0.0, 2.5], vec![0.0, 0.5, 1.0, 20.0, -1.0, NAN]], make: |p| Box::new(Normal::new(p[0], p[1])), points: cont_pts.clone(), int_params: &[false, false], default: || (Box::new(Normal::default()), vec![0.0, 1.0]) },
+        Law { name: "Gamma", setters: &["set_alpha", "set_beta"], lattice: vec![vec![0.5, 1.0, 3.0, 20.0, 0.0, -1.0], vec![0.5, 1.0, 4.0, 0.0, -2.0]], make: |p| Box::new(Gamma::new(p[0], p[1])), points: cont_pts.clone(), int_params: &[false, false], default: || (Box::new(Gamma::default()), vec![1.0, 1.0]) },
+        Law { name: "Beta", setters: &["set_alpha", "set_beta"], lattice: vec![vec![0.5, 1.0, 2.0, 4.0, 0.0, -1.0], vec![0.5, 1.0, 4.0, 7.5, 0.0, -1.0]], make: |p| Box::new(Beta::new(p[0], p[1])), points: cont_pts.clone(), int_params: &[false, false], default: || (Box::new(Beta::default()), vec![1.0, 1.0]) },
+        Law { name: "ChiSquared", setters: &["set_dof"], lattice: vec![vec![1.0, 2.0, 5.0, 50.0, 0.0, 2.7, -1.0]], make: |p| Box::new(ChiSquared::new(p[0] as usize)), points: cont_pts.clone(), int_params: &[true], default: || (Box::new(ChiSquared::default()), vec![1.0]) },
+        Law { name: "T", setters: &["set_dof"], lattice: vec![vec![0.5, 1.0, 2.0, 5.0, 30.0, 0.0, -1.0, NAN]], make: |p| Box::new(T::new(p[0])), points: cont_pts.clone(), int_params: &[false], default: || (Box::new(T::default()), vec![1.0]) },
+        Law { name: "Pareto", setters: &["set_alpha", "set_minval"], lattice: vec![vec![0.5, 1.0, 2.0, 4.0, 0.0, -1.0], vec![0.5, 1.0, 4.0, 0.0, -1.0]], make: |p| Box::new(Pareto::new(p[0], p[1])), points: cont_pts.clone(), int_params: &[false, false], default: || (Box::new(Pareto::default()), vec![1.0, 1.0]) },
+        Law { name: "Gumbel", setters: &["set_mu", "set_beta"], lattice: vec![vec![-1e3, 0.0, 1.0], vec![0.5, 1.0, 10.0, 0.0, -1.0]], make: |p| Box::new(Gumbel::new(p[0], p[1])), points: cont_pts.clone(), int_params: &[false, false], default: || (Box::new(Gumbel::default()), vec![0.0, 1.0]) },
+        Law { name: "Exponential", setters: &["set_lambda"], lattice: vec![vec![1e-3, 1.0, 5.0, 1e3, 0.0, -1.0]], make: |p| Box::new(Exponential::new(p[0])), points: cont_pts.clone(), int_params: &[false], default: || (Box::new(Exponential::default()), vec![1.0]) },
+        Law { name: "Uniform", setters: &["set_lower", "set_upper"], lattice: vec![vec![-5.0, 0.0, 1.0, 2.0, 5.0, 6.0], vec![-5.0, 0.0, 1.0, 2.0, 5.0, 6.0]], make: |p| Box::new(Uniform::new(p[0], p[1])), points: cont_pts.clone(), int_params: &[false, false], default: || (Box::new(Uniform::default()), vec![0.0, 1.0]) },
+        Law { name: "Poisson", setters: &["set_lambda"], lattice: vec![vec![0.5, 3.0, 10.0, 42.0, 0.0, -1.0]], make: |p| Box::new(Poisson::new(p[0])), points: disc_pts.clone(), int_params: &[false], default: || (Box::new(Poisson::default()), vec![1.0]) },
+        Law { name: "Binomial", setters: &["set_n", "set_p"], lattice: vec![vec![0.0, 1.0, 15.0, 70.0], vec![0.0, 0.3, 0.5, 0.7, 1.0, -0.1, 1.5, NAN]], make: |p| Box::new(Binomial::new(p[0] as u64, p[1])), points: disc_pts.clone(), int_params: &[true, false], default: || (Box::new(Binomial::default()), vec![1.0, 0.5]) },
+        Law { name: "Bernoulli", setters: &["set_p"], lattice: vec![vec![0.0, 0.25, 0.5, 1.0, -0.1, 1.5, NAN]], make: |p| Box::new(Bernoulli::new(p[0])), points: disc_pts.clone(), int_params: &[false], default: || (Box::new(Bernoulli::default()), vec![0.5]) },
+        Law { name: "DiscreteUniform", setters: &["set_lower", "set_upper"], lattice: vec![vec![-5.0, 0.0, 1.0, 2.0, 5.0, 6.0], vec![-5.0, 0.0, 1.0, 2.0, 5.0, 6.0]], make: |p| Box::new(DiscreteUniform::new(p[0] as i64, p[1] as i64)), points: disc_pts.clone(), int_params: &[true, true], default: || (Box::new(DiscreteUniform::default()), vec![0.0, 1.0]) },
     ]
 }
 
@@ -284,6 +294,10 @@ fn norm_params(law: &Law, p: &[f64]) -> Vec<f64> {
     p.iter().enumerate().map(|(i, v)| if law.int_params[i] { if law.name == "DiscreteUniform" { (*v as i64) as f64 } else { (*v as u64) as f64 } } else { *v }).collect()
 }
 fn accepts(law: &Law, p: &[f64]) -> bool {
+    // independent of the constructor: NaN is out of every parameter's domain
+    if p.iter().enumerate().any(|(i, x)| !law.int_params[i] && x.is_nan()) {
+        return false;
+    }
     let mk = law.make;
     guard(|| {
         mk(p);
@@ -314,6 +328,12 @@ fn explore_law(run: &'static Run, law: Arc<Law>) {
     let mut n_valid = 0;
     for t in &tuples {
         run.tr();
+        if t.iter().enumerate().any(|(i, x)| !law.int_params[i] && x.is_nan()) {
+            if let Ok(o) = guard(|| mk(t)) {
+                run.violate(&format!("{}/new/NaN-accepted", law.name), || format!("{}::new({:?}) succeeds and holds a NaN parameter: {}", law.name, t, o.dbg()));
+            }
+            continue;
+        }
         if let Ok(o) = guard(|| mk(t)) {
             n_valid += 1;
             // start the search from two representative objects only; the others are reached
@@ -321,6 +341,11 @@ fn explore_law(run: &'static Run, law: Arc<Law>) {
                 inits.push(mkstate(&law, o, t));
             }
         }
+    }
+    // the Default object is a constructed object like any other: histories start from it as well
+    match guard(|| (law.default)()) {
+        Ok((o, p)) => inits.push(mkstate(&law, o, &p)),
+        Err(e) => run.violate(&format!("{}/default/panic", law.name), || e),
     }
     run.regimes(&format!("{}:valid-tuples", law.name), n_valid);
     let all_tuples = Arc::new(tuples);
@@ -544,6 +569,6 @@ pub fn run(run: &Run) {
         }
     }
     run.bound("histories", "closure of the reachable state set for each of the 13 laws (histories of every length)");
-    run.assume("validity of a parameter tuple is defined by the law's own constructor (nothing is demanded that `new` does not demand)");
+    run.assume("validity of a parameter tuple is defined by the law's own constructor (nothing is demanded that `new` does not demand), except that NaN is in no parameter's domain");
     run.assume("seeded streams are compared through the pass-through alea shim (upstream generator); a sampler that draws more than 200000 words for 16 samples is recorded as a livelock observation");
 }
